@@ -511,11 +511,13 @@ fn ensure_comparable<'a>(keys: impl Iterator<Item = &'a Value>) -> TeraResult<()
 
 /// Sorts an array. If `attribute` is provided, sorts by that attribute.
 pub(crate) fn sort(val: &[Value], kwargs: Kwargs, _: &State) -> TeraResult<Vec<Value>> {
+    // Read the arguments first so a mistyped one is reported even for an empty array
+    let attribute = kwargs.get::<&str>("attribute")?;
     if val.is_empty() {
         return Ok(Vec::new());
     }
 
-    if let Some(attribute) = kwargs.get::<&str>("attribute")? {
+    if let Some(attribute) = attribute {
         let mut decorated = Vec::with_capacity(val.len());
         for v in val {
             let key = match v.get_from_path(attribute) {
@@ -593,11 +595,12 @@ pub(crate) fn get(val: &Map, kwargs: Kwargs, _: &State) -> TeraResult<Value> {
 }
 
 pub(crate) fn group_by(val: &[Value], kwargs: Kwargs, _: &State) -> TeraResult<Map> {
+    // Read the arguments first so a missing or mistyped one is reported even for an empty array
+    let attribute = kwargs.must_get::<&str>("attribute")?;
     if val.is_empty() {
         return Ok(Map::new());
     }
 
-    let attribute = kwargs.must_get::<&str>("attribute")?;
     let mut grouped: HashMap<Key, Vec<Value>> = HashMap::new();
     for v in val {
         match v.get_from_path(attribute) {
